@@ -8,7 +8,8 @@ after the other, and batches of concurrently outstanding async calls): input
 lengths 0..40 (quick) including non-multiples of the chunk size, chunk sizes
 {default, 1, 2, 3, n-1, n, n+1, 10n}, pool sizes 1-4 (1-8 thorough), lists /
 tuples / generators / iterators / deques / iterables without __len__, item
-types int / str / bytes / float (NaN, -0.0) / nested containers, functions that
+types int / str / bytes / float (NaN, -0.0) / nested containers / values of
+70-300 KB (larger than a pipe) next to short ones, functions that
 tag, take 2-3 starred arguments, take keywords (apply) or raise at chosen
 positions, seeded per-item latency plus SIGSTOP/SIGCONT of random workers so
 that chunks really finish out of order (the worker-side event log tells in
